@@ -51,6 +51,10 @@ structure Defs where
   onFinal : Nat → List Nat
   /-- `HierarchicalMachine.on_final` -/
   machineOnFinal : List Nat
+  /-- which `NestedState` OBJECT the state with this number (= this path in the machine) is: two paths are
+  the same object when one `HierarchicalMachine` instance is embedded as `children` of several states
+  (`_add_machine_states` adds the child machine's state objects themselves) -/
+  obj : Nat → Nat := id
 
 /-- whose `on_final` list a collected partial runs -/
 inductive Owner
@@ -59,8 +63,9 @@ inductive Owner
   deriving DecidableEq, Repr, Inhabited
 
 /-- `any(scoped.scoped_enter == part.func for part in enter_partials)` for the state `s` in scope:
-bound methods are equal iff they are the same method of the same state object -/
-def entered (E : List Nat) (s : Nat) : Bool := E.contains s
+bound methods are equal iff they are the same method of the same state OBJECT — the scope prefix the
+partial carries (`part.args[1]`, the path of the entered state's parents) is not compared -/
+def entered (D : Defs) (E : List Nat) (s : Nat) : Bool := E.any (fun e => D.obj e == D.obj s)
 
 /-- `(on_final_cbs, all_children_final)` while the `for` loop runs -/
 abbrev LoopSt := List Owner × Bool
@@ -78,14 +83,14 @@ def finalCheck (D : Defs) (E : List Nat) : Tree → List Owner × Bool
       if D.final s then
         -- if any(scoped.scoped_enter == part.func …): on_final_cbs.append(partial(… scoped.on_final …))
         -- is_final = True
-        (if entered E s then [.state s] else [], true)
+        (if entered D E s then [.state s] else [], true)
       else ([], false)
     else if r.2 then
       -- if all_children_final:
       --     if on_final_cbs or any(scoped.scoped_enter == part.func …): on_final_cbs.append(…)
       --     is_final = True
-      (if !r.1.isEmpty || entered E s then r.1 ++ [.state s] else r.1, true)
-    else if D.final s && entered E s then
+      (if !r.1.isEmpty || entered D E s then r.1 ++ [.state s] else r.1, true)
+    else if D.final s && entered D E s then
       -- elif getattr(scoped, 'final', False) and any(scoped.scoped_enter == part.func …):
       --     on_final_cbs.append(…)            (is_final stays False)
       (r.1 ++ [.state s], false)
